@@ -517,8 +517,13 @@ def r42(ctx: Ctx) -> RuleReport:
     RD = reaching_defs(cfg, fi.params)
     loops = [n for n in walk_local(fi.node) if isinstance(n, ast.For)]
     main_loop = None
+    enum_index = None
     for lp in loops:
         it = lp.iter
+        if isinstance(it, ast.Call) and isinstance(it.func, ast.Name) and it.func.id == 'enumerate' and len(it.args) == 1 and not it.keywords \
+                and isinstance(lp.target, ast.Tuple) and len(lp.target.elts) == 2 and isinstance(lp.target.elts[0], ast.Name):
+            enum_index = lp.target.elts[0].id
+            it = it.args[0]
         src = it
         if isinstance(it, ast.Name):
             vals = ctx.cg.local_assigns(fi).get(it.id, [])
@@ -607,6 +612,10 @@ def r42(ctx: Ctx) -> RuleReport:
                     f2 = facts_at(cfg, IN, pm, n)
                     if (flag, True) not in f2:
                         ok_flag = False
+    if not ok_flag and enum_index is not None and not ctx.cg.local_assigns(fi).get(enum_index, [None])[1:]:
+        # counted loop: the separator is printed exactly when the index is positive
+        ok_flag = any(((f in (f'{enum_index} > 0', f'{enum_index} >= 1', f'{enum_index} != 0', enum_index)) and pol) or
+                      ((f in (f'{enum_index} == 0', f'{enum_index} < 1', f'not {enum_index}')) and not pol) for f, pol in facts)
     before = cfg.path_avoiding([(head, 'T')], {cn}, lambda nd: nd.id == sn)
     rep.add('penman.__main__:process: separator printed before every graph but the first', fi.loc(s),
             'ok' if ok_flag and before is not None else 'undecided',
